@@ -60,6 +60,8 @@ def _conv(name, s_in, s_out, ty_out):
 
 def _join(eng, args, kwargs, fr, node):
     from .builtins import join_bytes
+    if args[0].ty[1] == T.ANY:
+        return V(BYTES, z3.Empty(T.BytesSort))
     return V(BYTES, join_bytes(eng, args[0].t))
 
 
@@ -78,3 +80,14 @@ def install(eng):
     bn['enc_ascii'] = PyObj('builtin', _conv('enc_ascii', T.StrSort, T.BytesSort, BYTES))
     bn['enc_utf8'] = PyObj('builtin', _conv('enc_utf8', T.StrSort, T.BytesSort, BYTES))
     bn['join_bytes'] = PyObj('builtin', _join)
+    OB = T.sort_of(T.opt(BYTES))
+
+    def _ob(name, ret_sort, ret_ty):
+        def f(eng, args, kwargs, fr, node):
+            a = T.coerce(args[0], T.opt(BYTES))
+            return V(ret_ty, UF(name, OB, ret_sort)(a.t))
+        return f
+    bn['gunzip'] = PyObj('builtin', _ob('gunzip', T.BytesSort, BYTES))
+    bn['gzip_ok'] = PyObj('builtin', _ob('gzip_ok', z3.BoolSort(), BOOL))
+    bn['unsnappy'] = PyObj('builtin', _ob('unsnappy', T.BytesSort, BYTES))
+    bn['snappy_ok'] = PyObj('builtin', _ob('snappy_ok', z3.BoolSort(), BOOL))
